@@ -33,11 +33,20 @@ ENTRY_POINTS = ('is_bearable', 'die_if_unbearable', 'TypeHint.is_bearable', 'Typ
 
 
 
+def _has_pep646(node):
+    """PEP 646 unpacked tuples (tuple[*tuple[int, str], float]) are equally "currently unsupported" by TypeHint."""
+    if node[0] == 'tupf' and node[2] in ('u', 'v') and len(node[1]) >= 2:
+        return True
+    found = []
+    H._map_children(node, lambda ch: found.append(_has_pep646(ch)) or ch)
+    return any(found)
+
+
 def entry_points_for(node):
     """beartype.door.TypeHint documents PEP 695 type aliases as "currently unsupported" (BeartypeDoorNonpepException at
     construction, or when the children of the wrapper are built): hints mentioning an alias are outside the domain of the two
     TypeHint entry points; the functional door API and the decorator support them."""
-    if 'alias' in H.node_kinds(node):
+    if 'alias' in H.node_kinds(node) or _has_pep646(node):
         return tuple(ep for ep in ENTRY_POINTS if not ep.startswith('TypeHint.'))
     return ENTRY_POINTS
 
